@@ -93,6 +93,7 @@ def run_family(run, exe, spec, prop, configs, consts_of, wanted_inv, wanted_or, 
             else:
                 run.note("spec-level refutation NOT reproduced on the code (%s): %s" % (tag, res["mismatch"]))
         if out["res"]["mismatch"]:
+            mulib.continue_divergences(run, exe, name, out, set(wanted_or) | {"O-crash"})
             nloc = 20000 if run.tier == "quick" else 300000
             resx = mulib.run_harness_env(exe, ["random", str(nloc), str(seed() + 7), out["init"], REPLAYS], out["env"])
             run.add("evaluations", nloc); run.add("distinct_nontrivial", resx["stats"].get("nontrivial", 0))
